@@ -63,7 +63,9 @@ def generate(tier, seed):
             Vdiv = V0 * math.exp(math.log(2) / doubling * T) * 4.0
         cases.append({"kind": "growth", "dt": dt, "n": n, "dyadic": dyadic, "vtype": vtype, "model": model, "V0": V0, "doubling": doubling,
                       "Vdiv": float("%.10g" % Vdiv), "divide": divide, "seed": util.seed64(PROPERTY, tier, seed, "g%d" % j) % (2 ** 31),
-                      "route": rnd.choice(["simulator", "simulator", "psm"]), "safe": rnd.random() < 0.3})
+                      "route": rnd.choice(["simulator", "simulator", "psm"]), "safe": rnd.random() < 0.3,
+                      # volume ticks finer than the grid (only without division: the division row is stated for ticks on the grid)
+                      "tick_div": 1 if divide else rnd.choice([1, 1, 2, 4])})
     return cases
 
 
@@ -172,7 +174,7 @@ def run_growth(case):
     v.py_initialize(x0.copy(), pv.copy(), 0.0, V0)
     if case["route"] == "simulator":
         itf = SafeModelCSimInterface(M) if case["safe"] else ModelCSimInterface(M)
-        itf.py_set_dt(dt)
+        itf.py_set_dt(dt / case.get("tick_div", 1))
         res = VolumeSSASimulator().py_volume_simulate(itf, v, tp.copy())
     else:
         res = py_simulate_model(tp.copy(), Model=M, stochastic=True, volume=v, safe=case["safe"], return_dataframe=False)
@@ -198,7 +200,8 @@ def run_growth(case):
             bad("non-positive-volume", "volume trace has non-positive entries %r" % list(Vt[Vt <= 0][:3]))
         if (np.diff(Vt) < 0).any():
             bad("volume-decreases", "volume decreases at row %d" % int(np.argmax(np.diff(Vt) < 0)))
-        lo = V0 * np.exp(g * (tt - dt)) * (1 - 1e-9)
+        tick = dt / (case.get("tick_div", 1) if case["route"] == "simulator" else 1)
+        lo = V0 * np.exp(g * (tt - tick)) * (1 - 1e-9)
         hi = V0 * np.exp(g * tt) * (1 + 1e-9)
         lo[0] = V0 * (1 - 1e-12)
         if ((Vt < lo) | (Vt > hi)).any():
